@@ -150,6 +150,8 @@ def alternatives_for_K(v, k):
                 yield from walk(v.hi, sub_t, desc + [v.cond.text])
                 yield from walk(v.lo, sub, desc + [f"not({v.cond.text})"])
                 return
+            if t and getattr(v.cond, "eq", None) is not None:
+                sub = dict(sub); sub["starts.shape0"] = X.const(k)      # the branch taken only for exactly this many segments
             v = v.hi if t else v.lo
         if isinstance(v, tuple) and any(isinstance(e, PV) for e in v):
             # conditions inside the tuple elements: resolve those on K, keep the rest for the caller
